@@ -18,7 +18,8 @@ def cases(tier):
             out.append({'cfg': cfg, 'name': 'n%d m%d c%d x%d %s' % (n, m, cap, x, 'seeded' if seeded else 'unseeded'), 'seeded': seeded})
     # "whatever random-number generator the prover is handed": also one that is stuck. Within a proof the nonces must still be pairwise different
     # (the transcript RNG is re-keyed after every prover message and draws successive outputs in between)
-    for (n, m, cap, x) in cfgs[:3]:
+    # (bit lengths with an even and with an odd number of folding rounds: the transcript RNG is rebuilt once per round)
+    for (n, m, cap, x) in cfgs[:3] + [(64, 1, 2, 3), (4, 1, 1, 2), (16, 1, 1, 1)]:
         for seeded in ((False, True) if m == 1 else (False,)):
             mem = {'m': m, 'cap': cap, 'seeded': seeded, 'name_idx': 0}
             cfg = {'scenario': 'batch', 'n': n, 'x': x, 'members': [dict(mem, rng='zero'), dict(mem, rng='const')], 'prove_only': True}
